@@ -332,9 +332,9 @@ pub fn lsp_semantic_tokens(id: Value, uri: &str) -> Value {
 /// in letter case (distinct files on a case-sensitive file system, distinct documents for a
 /// project): a set must never lose a file because its name "equals" another one ignoring case.
 pub fn set_file_name(i: usize) -> String {
-    // (a name with a blank and a non-ASCII letter; also names without the usual extension: what is given - or lies in a given directory - is a
+    // (a name with a blank and a non-ASCII letter, names with a comma and a hash sign; also names without the usual extension: what is given - or lies in a given directory - is a
     // source file whatever it is called)
-    const NAMES: &[&str] = &["unit.st", "Unit.st", "types", "\u{fc}nit two.st", "prog.txt", "unit.ST", "third.iec", "UNIT.st"];
+    const NAMES: &[&str] = &["unit.st", "Unit.st", "types", "\u{fc}nit two.st", "prog,v2.txt", "unit.ST", "third#1.iec", "UNIT.st"];
     if i < NAMES.len() {
         NAMES[i].to_string()
     } else {
